@@ -6,12 +6,18 @@ VF_GHOSTS
 
 #include "dir_contracts.h"
 
-/* Points::pointIdx(label): found or invalid_argument; a miss is recorded */
+/* Points::pointIdx(label): found (the position is recorded, call by call) or invalid_argument; a miss is recorded */
 _Bool vf_label_missing;
+size_t vf_rec_pn, vf_rec_p0, vf_rec_p1; /* number of look-ups so far; position found by the first / second one */
 size_t contract_rec_Points__pointIdx(const struct Points *self, const vf_string *pointName)
 __CPROVER_requires(vf_exc == 0 && __CPROVER_r_ok(self, sizeof(*self)) && __CPROVER_r_ok(pointName, sizeof(*pointName)))
-__CPROVER_assigns(vf_exc, vf_label_missing)
-__CPROVER_ensures((vf_exc == 0 && vf_label_missing == __CPROVER_old(vf_label_missing)) || (vf_exc == VF_EXC_invalid_argument && vf_label_missing));
+__CPROVER_assigns(vf_exc, vf_label_missing, vf_rec_pn, vf_rec_p0, vf_rec_p1)
+__CPROVER_ensures((vf_exc == 0 && vf_label_missing == __CPROVER_old(vf_label_missing) && vf_rec_pn == __CPROVER_old(vf_rec_pn) + 1 &&
+                   (__CPROVER_old(vf_rec_pn) == 0 ==> vf_rec_p0 == __CPROVER_return_value) &&
+                   (__CPROVER_old(vf_rec_pn) != 0 ==> vf_rec_p0 == __CPROVER_old(vf_rec_p0)) &&
+                   (__CPROVER_old(vf_rec_pn) == 1 ==> vf_rec_p1 == __CPROVER_return_value) &&
+                   (__CPROVER_old(vf_rec_pn) != 1 ==> vf_rec_p1 == __CPROVER_old(vf_rec_p1))) ||
+                  (vf_exc == VF_EXC_invalid_argument && vf_label_missing));
 
 /* the two mutating steps: recorded, in order */
 int vf_step; /* 0 nothing yet, 1 Data::frame done, 2 updateParameters done */
@@ -37,6 +43,7 @@ __CPROVER_ensures(v->size == o->size && __CPROVER_is_fresh(v->data, 2 * sizeof(v
 #define P_RATE (vf_dir_p_rate->_param_data_float.data[0])
 #define A_USED ((size_t)vf_dir_a_used->_param_data_int.data[0])
 #define A_RATE (vf_dir_a_rate->_param_data_float.data[0])
+#define NLABELS (vf_dir_p_labels->_param_data_string.size)
 #define NPTS (f->_points->_points.size)
 #define NSUB (f->_analogs->_subframe.size)
 #define NCH (f->_analogs->_subframe.data[0]._channels.size)
@@ -48,10 +55,10 @@ __CPROVER_ensures(v->size == o->size && __CPROVER_is_fresh(v->data, 2 * sizeof(v
 #define ACCEPTABLE (!R1 && !vf_label_missing && !R2 && !R3 && (NSUB == 0 || (NCH == A_USED && A_USED != 0)))
 
 void contract_c3d__frame(struct c3d *self, const struct Frame *f, size_t idx)
-__CPROVER_requires(vf_exc == 0 && vf_step == 0 && !vf_label_missing && __CPROVER_rw_ok(self, sizeof(*self)) &&
+__CPROVER_requires(vf_exc == 0 && vf_step == 0 && !vf_label_missing && vf_rec_pn == 0 && __CPROVER_rw_ok(self, sizeof(*self)) &&
                    __CPROVER_r_ok(self->_header, sizeof(struct Header)) && __CPROVER_r_ok(self->_parameters, sizeof(struct Parameters)) &&
                    __CPROVER_rw_ok(self->_data, sizeof(struct Data)))
-__CPROVER_assigns(vf_exc, vf_label_missing, vf_step, vf_rec_frame, vf_rec_idx)
+__CPROVER_assigns(vf_exc, vf_label_missing, vf_step, vf_rec_frame, vf_rec_idx, vf_rec_pn, vf_rec_p0, vf_rec_p1)
 /*@ C07 : c3d_frame.point-count-mismatch-refused */ __CPROVER_ensures(R1 ==> vf_exc == VF_EXC_runtime_error)
 /*@ C07 : c3d_frame.missing-label-refused */ __CPROVER_ensures((!R1 && vf_label_missing) ==> vf_exc == VF_EXC_invalid_argument)
 /*@ C07 : c3d_frame.points-without-point-rate-refused */ __CPROVER_ensures((!R1 && !vf_label_missing && R2) ==> vf_exc == VF_EXC_runtime_error)
@@ -60,6 +67,8 @@ __CPROVER_assigns(vf_exc, vf_label_missing, vf_step, vf_rec_frame, vf_rec_idx)
 /*@ C07 : c3d_frame.matching-frame-accepted */ __CPROVER_ensures(ACCEPTABLE ==> vf_exc == 0)
 /*@ C07 C06 : c3d_frame.accepted-frame-is-stored-then-parameters-updated */
 __CPROVER_ensures(vf_exc == 0 ==> (vf_step == 2 && vf_rec_frame == f && vf_rec_idx == idx))
+/*@ C05 C01 : c3d_frame.accepted-frame-has-its-points-in-label-order */
+__CPROVER_ensures(vf_exc == 0 ==> ((NLABELS >= 1 ==> vf_rec_p0 == 0) && (NLABELS >= 2 ==> vf_rec_p1 == 1)))
 /*@ C10 : c3d_frame.refused-before-any-mutation */ __CPROVER_ensures(vf_exc != 0 ==> vf_step == 0);
 
 void h_c3d_frame(void)
@@ -91,6 +100,7 @@ void h_c3d_frame(void)
     VF_MK_VEC(f->_analogs->_subframe.data[0]._channels, struct Channel);
   vf_step = 0;
   vf_label_missing = 0;
+  vf_rec_pn = 0;
   size_t idx;
   c3d__frame(self, f, idx);
   VF_CANARY();
